@@ -1,5 +1,6 @@
 import LenaModel.DriverUtil
 import LenaModel.Model.C02
+import LenaModel.Model.C02Src
 /-! Model driver for C02.  Requests (one JSON object per line):
 
   {"op":"run","stages":[S..],"n":N|null,"k":K,"fuel":F}
@@ -20,7 +21,15 @@ import LenaModel.Model.C02
     | {"k":"fr","pre":[E..],"stop":n|null,"post":[S..]}
       (the stages of a branch: map, filter, slice, runif — a Count only inside a runif)
   E = {"t":"map","f":F} | {"t":"filter","p":P} | {"t":"slice",..non-negative..} | {"t":"count","name":s,"c0":i}
-  F = ["add",b] | ["mul",a] | ["id"];  P = ["mod",m,r] | ["lt",c] | ["ge",c] | ["all"] | ["none"] -/
+  F = ["add",b] | ["mul",a] | ["id"];  P = ["mod",m,r] | ["lt",c] | ["ge",c] | ["all"] | ["none"]
+
+  Where the flow comes from (`Model/C02Src.lean`):
+    "head":{"parts":[n1,n2,..],"inf":bool} in a request: the input is the chain of instrumented iterables with n1,
+      n2, .. values 0,1,2,.. (then an infinite one) — `Pipe.ofHead` instead of `Pipe.ofList`/`Pipe.ofFn`;
+    B = {"k":"isrc","m":n|null,"base":i,"tf":F}: a `Source` with an instrumented flow of its own (m null: infinite)
+      among the branches of a split: the stage becomes `[.plain (split with srcOps [marker]), .splice markV srcs]`.
+    With either of them the request is evaluated with `xseqRun`/`xseqSpec`/`xseqDen`.
+    "trunc":n in a spec request: every infinite flow (input, last iterable of the chain, Sources) cut after n values. -/
 open Lean Lena.Drv Lena.C02
 
 def fn? (j : Json) : Option Fn := do
@@ -88,6 +97,7 @@ def branchKind (b : Json) : Lena.C03.Kind :=
   | some "fc" => .fillCompute
   | some "fr" => .fillRequest
   | some "src" => .source
+  | some "isrc" => .source
   | _ => .sequence
 
 mutual
@@ -140,7 +150,10 @@ partial def stage? (j : Json) : Option (Stage V) :=
       if (getD j "bufsize").isNull then some none else (nat? (getD j "bufsize")).map some
     match bs, bool? (getD j "copy"), (arr? (getD j "branches")).bind (fun a => a.toList.mapM branch?) with
     | some b, some c, some brs =>
-      let brs' := (List.range brs.length).zip brs |>.map (fun (i, br) => { br with id := i })
+      let bjs := ((arr? (getD j "branches")).getD #[]).toList
+      -- a Source with an instrumented flow is represented by its marker: `spliceG` iterates it where it is reached
+      let brs' := (List.range brs.length).zip (brs.zip bjs) |>.map (fun (i, br, bj) =>
+        if str? (getD bj "k") == some "isrc" then { br with id := i, ops := srcOps [markerV i] } else { br with id := i })
       -- `Split.__init__`: a finite bufsize becomes None if a sequence-type branch contains a Cache
       let trees := ((arr? (getD j "branches")).getD #[]).toList.map (fun bj => (branchKind bj, branchTree bj))
       some (.split BrSt brs' (effBufsize b trees) c)
@@ -179,8 +192,43 @@ partial def branch? (j : Json) : Option (Lena.C03.Branch BrSt V) :=
              ops := srcOps ((List.range m).map (fun (i : Nat) => { d := base + (i : Int), ctx := [] })),
              st := { pre := [], count := 0, ctx := [] } }
     | _, _ => none
+  | some "isrc" =>
+    some { id := 0, kind := .source, ops := srcOps [markerV 0], st := { pre := [], count := 0, ctx := [] } }
   | _ => none
 end
+
+/-- the flow of a `Source` with an instrumented generator -/
+def bsrc? (bj : Json) : Option (BSrc V) :=
+  match str? (getD bj "k"), int? (getD bj "base"), fn? (getD bj "tf") with
+  | some "isrc", some base, some f =>
+    let v : Nat → V := fun i => f.app { d := base + (i : Int), ctx := [] }
+    if (getD bj "m").isNull then some (.inf v) else (nat? (getD bj "m")).map (fun m => .fin ((List.range m).map v))
+  | _, _, _ => none
+
+/-- a stage descriptor as elements of a pipeline with Sources inside -/
+def xstage? (j : Json) : Option (List (XStage V)) :=
+  (stage? j).map (fun st =>
+    let bjs := if str? (getD j "t") == some "split" then ((arr? (getD j "branches")).getD #[]).toList else []
+    if bjs.any (fun bj => (bsrc? bj).isSome) then
+      [.plain st, .splice markV (fun i => ((bjs[i]?).bind bsrc?).getD (.fin []))]
+    else [.plain st])
+
+def xstages? (j : Json) : Option (List (XStage V)) := ((arr? j).bind (fun a => a.toList.mapM xstage?)).map List.flatten
+
+def XStage.isSplice : XStage V → Bool
+  | .splice _ _ => true
+  | _ => false
+
+def mkV (i : Nat) : V := { d := (i : Int), ctx := [] }
+
+/-- `"head"`: the chained iterables with their values numbered consecutively -/
+def head? (j : Json) : Option (Head V) :=
+  if (getD j "head").isNull then none
+  else
+    let h := getD j "head"
+    let ns := ((arr? (getD h "parts")).getD #[]).toList.filterMap nat?
+    let r := ns.foldl (fun (acc : List (List V) × Nat) n => (acc.1 ++ [(List.range n).map (fun i => mkV (acc.2 + i))], acc.2 + n)) ([], 0)
+    some { parts := r.1, tail := if (bool? (getD h "inf")).getD false then some (fun i => mkV (r.2 + i)) else none }
 
 def ctxJson (c : List (String × Int)) : Json := Json.mkObj (c.map (fun (k, v) => (k, ofInt v)))
 
@@ -195,7 +243,51 @@ def endJson : Ending → Json
 
 def srcVals (n : Nat) : List V := (List.range n).map (fun (i : Nat) => { d := (i : Int), ctx := [] })
 
-def handle (j : Json) : Json :=
+/-- requests about pipelines whose flow comes from chained iterables or which have Sources inside a Split -/
+def handleX (j : Json) (xs : List (XStage V)) : Json :=
+  let head := head? j
+  let trunc := nat? (getD j "trunc")
+  let nn : Option Nat := match nat? (getD j "n") with | some n => some n | none => trunc
+  match str? (getD j "op") with
+  | some "run" =>
+    match nat? (getD j "k"), nat? (getD j "fuel") with
+    | some k, some fu =>
+      let src : Option (Pipe V) :=
+        match head with
+        | some h => some (Pipe.ofHead h)
+        | none =>
+          if (getD j "n").isNull then some (Pipe.ofFn mkV) else (nat? (getD j "n")).map (fun n => Pipe.ofList (srcVals n))
+      match src with
+      | some src =>
+        let p := xseqRun xs src
+        let r := p.take fu k
+        Json.mkObj [("built", ofNat p.now), ("r", ofList vcJson r.1), ("end", endJson r.2.1), ("clock", ofNat r.2.2),
+          ("wf", Json.bool (xs.all XStage.wfb)), ("cap", ofOpt ofNat (xseqCap xs))]
+      | none => err "bad n"
+    | _, _ => err "bad run args"
+  | some "spec" =>
+    let xs' := match trunc with | some n => xs.map (XStage.trunc n) | none => xs
+    let sf0 : Option (SF V × Bool) :=
+      match head with
+      | some h =>
+        let parts := match trunc with | some n => h.trunc n | none => h.parts
+        some (SF.ofChain parts, decide (parts.length < (nat? (getD j "fuel")).getD 0))
+      | none => nn.map (fun n => (SF.ofList (srcVals n), true))
+    match sf0 with
+    | some (sf0, ok) =>
+      let sf := xseqSpec xs' sf0
+      let fu := (nat? (getD j "fuel")).getD 0
+      Json.mkObj [("r", ofList vcJson sf.vals), ("cf", ofNat sf.cf), ("fuelok", Json.bool (ok && xseqFuelOKb xs' sf0 fu))]
+    | none => err "bad n"
+  | some "den" =>
+    match head, nat? (getD j "n") with
+    | some h, _ => Json.mkObj [("r", ofList vJson (xseqDen xs h.parts.flatten))]
+    | none, some n => Json.mkObj [("r", ofList vJson (xseqDen xs (srcVals n)))]
+    | none, none => err "bad n"
+  | _ => err "unknown op"
+
+/-- requests about pipelines of streaming elements over one instrumented input (`Model/C02.lean`) -/
+def handleOld (j : Json) : Json :=
   match str? (getD j "op"), stages? (getD j "stages") with
   | some "run", some stages =>
     match nat? (getD j "k"), nat? (getD j "fuel") with
@@ -212,7 +304,7 @@ def handle (j : Json) : Json :=
       | none => err "bad n"
     | _, _ => err "bad run args"
   | some "spec", some stages =>
-    match nat? (getD j "n") with
+    match (match nat? (getD j "n") with | some n => some n | none => nat? (getD j "trunc")) with
     | some n =>
       let sf := seqSpec stages (SF.ofList (srcVals n))
       let fu := (nat? (getD j "fuel")).getD 0
@@ -225,5 +317,11 @@ def handle (j : Json) : Json :=
     | none => err "bad n"
   | _, none => err "bad stages"
   | _, _ => err "unknown op"
+
+def handle (j : Json) : Json :=
+  match xstages? (getD j "stages") with
+  | some xs =>
+    if !(getD j "head").isNull || xs.any XStage.isSplice then handleX j xs else handleOld j
+  | none => handleOld j
 
 def main : IO Unit := run handle
